@@ -209,6 +209,18 @@ def _one(item):
                     return dict(kind="conns", step=step, detail=f"{p}: conns holds {cn[p]!r}, last connected {x!r}")
     except Exception as e:
         return dict(kind="op_raised", detail=short_exc(e))
+    if kind == "array":
+        # an element of an array is not addressable: `arr[k]` is refused - a connection written as `arr[k].p = x`, or an
+        # element replaced by `arr[k] = other`, must not appear to succeed and then be missing from the design
+        for how in ("getitem", "setitem"):
+            try:
+                if how == "getitem":
+                    setattr(inst[0], "a", ns["da"])
+                else:
+                    inst[1] = inst
+            except Exception:
+                continue
+            return dict(kind="silent_noop", detail=f"indexing the array ({how}) did not raise: the connection / replacement written through it is silently lost")
     # completion, on the real objects
     fdesign, conns, kconns = final_design(kind, mapping)
     try:
